@@ -149,6 +149,34 @@ CHECKS = {
             'statement with parameters substituted, to what --execute issues '
             'between the app\'s applying/applied signals.',
             'SQLite; upgrades whose execution fails are skipped.', '3/C14'),
+    'C10': ('exploration',
+            'history + reference model of the hand-over on generated '
+            'projects with real makemigrations output: signal order, '
+            'django_migrations rows, stored app signature, re-run',
+            'Generated apps with evolutions, a MoveToDjangoMigrations '
+            'evolution and a real migration chain are upgraded from fresh / '
+            'earlier states through three drivers; order, execution and '
+            'recording of migrations and the stored signature are checked.',
+            'SQLite; migrations generated by Django makemigrations in a '
+            'helper process.', '3/C10'),
+    'C15': ('exploration',
+            'reference ownership model vs observed dropped tables, '
+            'byte-identical comparison of all other tables and stored '
+            'signature entries',
+            'Projects of 2-4 apps are evolved after apps were removed '
+            '(with/without purge, command and API) or a model deleted; '
+            'exactly the owned tables and signature entries may disappear.',
+            'Only apps that no remaining app refers to are removed.',
+            '3/C15'),
+    'C16': ('exploration',
+            'two-database monitor: per-alias statement trace, SHA-256 of '
+            'the other database file, ownership reference from the '
+            'generated router',
+            'Every split of an app\'s models over two databases is evolved '
+            'database by database; tables, stored models and columns on each '
+            'side must match the routing and the other file must not '
+            'change.',
+            'SQLite files; router answers from a fixed table.', '3/C16'),
 }
 
 NOT_YET = 'check under construction (round 1)'
